@@ -73,6 +73,27 @@ let rec remove eq_dec0 x = function
 | y :: tl ->
   if eq_dec0 x y then remove eq_dec0 x tl else y :: (remove eq_dec0 x tl)
 
+(** val flat_map : ('a1 -> 'a2 list) -> 'a1 list -> 'a2 list **)
+
+let rec flat_map f = function
+| [] -> []
+| x :: t -> app (f x) (flat_map f t)
+
+(** val existsb : ('a1 -> bool) -> 'a1 list -> bool **)
+
+let rec existsb f = function
+| [] -> false
+| a :: l0 -> (||) (f a) (existsb f l0)
+
+(** val firstn : nat -> 'a1 list -> 'a1 list **)
+
+let rec firstn n l =
+  match n with
+  | O -> []
+  | S n0 -> (match l with
+             | [] -> []
+             | a :: l0 -> a :: (firstn n0 l0))
+
 type positive =
 | XI of positive
 | XO of positive
@@ -761,56 +782,62 @@ let init =
     (O :: []) false
 
 type aux = { started : bool; ract : nat; hof : (nat -> nat); ph : nat;
-             opk : (nat -> z); qt : z; qh : z }
+             opk : (nat -> z); qt : z; qh : z; nb : nat }
 
 (** val aux0 : aux **)
 
 let aux0 =
   { started = false; ract = O; hof = (fun _ -> O); ph = O; opk = (fun _ ->
-    Z0); qt = Z0; qh = Z0 }
+    Z0); qt = Z0; qh = Z0; nb = O }
 
 type ast = st * aux
 
-(** val m_init : ast **)
+(** val a_init : ast **)
 
-let m_init =
+let a_init =
   (init, aux0)
 
 (** val set_ract : aux -> nat -> aux **)
 
 let set_ract x a =
   { started = x.started; ract = a; hof = x.hof; ph = x.ph; opk = x.opk; qt =
-    x.qt; qh = x.qh }
+    x.qt; qh = x.qh; nb = x.nb }
 
 (** val set_hof : aux -> nat -> nat -> aux **)
 
 let set_hof x a h =
   { started = x.started; ract = x.ract; hof = (upd x.hof a h); ph = x.ph;
-    opk = x.opk; qt = x.qt; qh = x.qh }
+    opk = x.opk; qt = x.qt; qh = x.qh; nb = x.nb }
 
 (** val set_ph : aux -> nat -> aux **)
 
 let set_ph x p =
   { started = x.started; ract = x.ract; hof = x.hof; ph = p; opk = x.opk;
-    qt = x.qt; qh = x.qh }
+    qt = x.qt; qh = x.qh; nb = x.nb }
 
 (** val set_opk : aux -> (nat -> z) -> aux **)
 
 let set_opk x m =
   { started = x.started; ract = x.ract; hof = x.hof; ph = x.ph; opk = m; qt =
-    x.qt; qh = x.qh }
+    x.qt; qh = x.qh; nb = x.nb }
 
 (** val set_qt : aux -> z -> aux **)
 
 let set_qt x o =
   { started = x.started; ract = x.ract; hof = x.hof; ph = x.ph; opk = x.opk;
-    qt = o; qh = x.qh }
+    qt = o; qh = x.qh; nb = x.nb }
+
+(** val set_nb : aux -> nat -> aux **)
+
+let set_nb x n =
+  { started = x.started; ract = x.ract; hof = x.hof; ph = x.ph; opk = x.opk;
+    qt = x.qt; qh = x.qh; nb = n }
 
 (** val set_qh : aux -> z -> aux **)
 
 let set_qh x o =
   { started = x.started; ract = x.ract; hof = x.hof; ph = x.ph; opk = x.opk;
-    qt = x.qt; qh = o }
+    qt = x.qt; qh = o; nb = x.nb }
 
 (** val rpc_eqb : rpc -> rpc -> bool **)
 
@@ -1176,10 +1203,15 @@ let plan_ev s x = function
                              (match p3 with
                               | XH ->
                                 guard ((&&) (is_r x a) (Nat.eqb x.ph O))
-                                  (if at_r s RDeadline
-                                   then ok ((RDl false) :: (RStep :: [])) x
-                                   else guard (at_r s RStore)
-                                          (ok (RStep :: []) x))
+                                  (if Nat.eqb x.nb (S (S O))
+                                   then guard (at_r s RPop1)
+                                          (skip (set_nb x O))
+                                   else if at_r s RDeadline
+                                        then ok ((RDl
+                                               false) :: (RStep :: []))
+                                               (set_nb x O)
+                                        else guard (at_r s RStore)
+                                               (ok (RStep :: []) (set_nb x O)))
                               | _ -> None)
                            | XH ->
                              guard
@@ -1251,10 +1283,22 @@ let plan_ev s x = function
                           (match p2 with
                            | XI p3 ->
                              (match p3 with
+                              | XI _ -> None
+                              | XO p4 ->
+                                (match p4 with
+                                 | XH ->
+                                   if (&&) ((&&) (is_r x a) (Nat.eqb x.ph O))
+                                        ((||) (at_r s RStore)
+                                          (at_r s RDeadline))
+                                   then if at_r s RDeadline
+                                        then ok ((RDl false) :: [])
+                                               (set_nb x (S O))
+                                        else skip (set_nb x (S O))
+                                   else skip x
+                                 | _ -> None)
                               | XH ->
                                 guard ((&&) (is_r x a) (at_r s RPd0))
-                                  (ok (RStep :: []) x)
-                              | _ -> None)
+                                  (ok (RStep :: []) x))
                            | XO p3 ->
                              (match p3 with
                               | XH ->
@@ -1406,10 +1450,60 @@ let accept_ev sx e =
                           | [] ->
                             Some (s, { started = true; ract = x.ract; hof =
                               x.hof; ph = x.ph; opk = x.opk; qt = x.qt; qh =
-                              x.qh })
+                              x.qh; nb = x.nb })
                           | _ :: _ -> Some sx))))
               | _ -> Some sx)
            | _ -> Some sx))
+
+(** val branch : ast -> z list -> ast list **)
+
+let branch sx e =
+  let (s, x) = sx in
+  (match e with
+   | [] -> sx :: []
+   | code :: l ->
+     (match l with
+      | [] -> sx :: []
+      | _ :: l0 ->
+        (match l0 with
+         | [] -> sx :: []
+         | _ :: l1 ->
+           (match l1 with
+            | [] -> sx :: []
+            | v :: l2 ->
+              (match l2 with
+               | [] ->
+                 if (&&)
+                      ((&&)
+                        ((&&)
+                          ((||) (Z.eqb code (Zpos (XI (XO (XI (XO XH))))))
+                            (Z.eqb code (Zpos (XI (XI (XO (XI XH)))))))
+                          (zb v)) (Nat.eqb x.nb (S O))) (at_r s RStore)
+                 then (match step s RStep with
+                       | Some s' -> sx :: ((s', (set_nb x (S (S O)))) :: [])
+                       | None -> sx :: [])
+                 else sx :: []
+               | _ :: _ -> sx :: [])))))
+
+(** val accept1 : z list -> ast -> ast list **)
+
+let accept1 e sx =
+  match accept_ev sx e with
+  | Some sx' -> sx' :: []
+  | None -> []
+
+(** val accept_evm : ast list -> z list -> ast list option **)
+
+let accept_evm l e =
+  match firstn (S (S (S (S (S (S (S (S O))))))))
+          (flat_map (accept1 e) (flat_map (fun sx -> branch sx e) l)) with
+  | [] -> None
+  | a :: l0 -> Some (a :: l0)
+
+(** val m_initm : ast list **)
+
+let m_initm =
+  a_init :: []
 
 (** val vals_eqb : val0 list -> val0 list -> bool **)
 
@@ -1431,17 +1525,22 @@ let rec vals_eqb l1 l2 =
 let monitors_ok sx =
   let s = fst sx in vals_eqb s.sent (app s.rcvd (app s.drpd s.q))
 
-(** val m_init0 : ast **)
+(** val monitors_okm : ast list -> bool **)
 
-let m_init0 =
-  m_init
+let monitors_okm l =
+  existsb monitors_ok l
 
-(** val m_accept : ast -> z list -> ast option **)
+(** val m_init : ast list **)
+
+let m_init =
+  m_initm
+
+(** val m_accept : ast list -> z list -> ast list option **)
 
 let m_accept =
-  accept_ev
+  accept_evm
 
-(** val m_final : ast -> bool **)
+(** val m_final : ast list -> bool **)
 
 let m_final =
-  monitors_ok
+  monitors_okm
